@@ -72,7 +72,10 @@ def strategy_(draw, tier):
     for _ in range(draw(st.integers(1, 4))):
         merges.append({'idx': draw(st.integers(0, nparts - 1)),
                        'kind': draw(st.sampled_from(['composite', 'composite',
-                                                     'loose'])),
+                                                     'loose', 'mixed'])),
+                       # 'mixed': one call merges composite idx AND the loose
+                       # parts of composite idx2 (loose entries win)
+                       'idx2': draw(st.integers(0, nparts - 1)),
                        'path': draw(st.sampled_from(PATHS))})
     override = None
     if draw(st.booleans()):
@@ -258,7 +261,17 @@ def check_merges(spec, res, ctx):
         src = sources[m['idx']]
         path = tuple(m['path'])
         before_src = {k: snapshot(src[k]) for k in KEYS}
-        if m['kind'] == 'composite':
+        pre_src = before_src
+        if m['kind'] == 'mixed':
+            src2 = sources[m.get('idx2', 0)]
+            before2 = {k: snapshot(src2[k]) for k in KEYS}
+            target.merge(composite=src, processes=src2['processes'],
+                         topology=src2['topology'], steps=src2['steps'],
+                         flow=src2['flow'], state=src2['state'], path=path)
+            merged_in.append((m.get('idx2', 0), src2, before2))
+            before_src = {k: union(before_src[k], before2[k]) for k in KEYS}
+            res.label('merge.mixed')
+        elif m['kind'] == 'composite':
             target.merge(composite=src, path=path)
         else:
             target.merge(processes=src['processes'], topology=src['topology'],
@@ -266,7 +279,7 @@ def check_merges(spec, res, ctx):
                          state=src['state'], path=path)
         for k in KEYS:
             expected[k] = union(expected[k], nest(list(path), before_src[k]))
-        merged_in.append((m['idx'], src, before_src))
+        merged_in.append((m['idx'], src, pre_src))
         for k in KEYS:
             if not same(target[k], expected[k]):
                 res.fail('merge.union', 'after merge %d (%r) target[%s] = %r, '
